@@ -21,12 +21,16 @@ from sa.report import Ctx, load_known
 REPO = os.environ.get("VERIF_REPO") or "/repo"
 
 
+def _repo():
+    return os.environ.get("VERIF_REPO") or "/repo"
+
+
 def apply_variant(v) -> dict[str, str] | None:
     """Return overrides {relpath: new source} or None if the variant does not apply."""
     overrides = {}
     edits = v.get("edits") or [dict(file=v["file"], old=v["old"], new=v["new"], count=v.get("count", 1))]
     for e in edits:
-        path = os.path.join(REPO, e["file"])
+        path = os.path.join(_repo(), e["file"])
         src = overrides.get(e["file"])
         if src is None:
             try:
@@ -48,7 +52,7 @@ def run_variant(v):
         return (v["id"], prop, "skipped", "pattern not found (tree differs)")
     try:
         mod = importlib.import_module(f"rules.{prop.lower()}")
-        program = Program(REPO, overrides=ov)
+        program = Program(_repo(), overrides=ov)
         ctx = Ctx(prop, program, v.get("tier", "quick"), 0)
         buf = io.StringIO()
         with contextlib.redirect_stdout(buf):
